@@ -265,6 +265,36 @@ SrcAlpha8Rec(s8, m8, mode) == [a |-> SrcAlpha8(s8, m8, mode, "a"), r |-> SrcAlph
 NarrowOK(op, mode, s8, m8, d8, fd, rpx) ==
     NarrowOK3(op, Real8(SrcIn8Rec(s8, m8, mode)), Real8(SrcAlpha8Rec(s8, m8, mode)), Real8(d8), fd, rpx)
 
+(* Operators of the tolerance class whose factors degenerate: with an opaque source or        *)
+(* destination (or always, for DISJOINT / CONJOINT _CLEAR, _SRC, _DST) the factors of SATURATE  *)
+(* and of the disjoint / conjoint operators are literally those of a plain Porter-Duff         *)
+(* operator (SATURATE with sa = 1 is OVER_REVERSE, DISJOINT_OVER with sa = 1 is SRC ...).  The   *)
+(* equation then being that operator's, its exact evaluation (statement: "exact for the        *)
+(* Porter-Duff operators") is accepted as well when all formats are narrow.  EquivKind8 names  *)
+(* the plain factor a division factor equals for 8-bit alphas sa, da, or "frac".               *)
+EquivKind8(kind, sa, da) ==
+    CASE kind \in {"0", "1"} -> kind
+      [] kind = "sa/da"    -> IF da = 0 \/ sa >= da THEN "1" ELSE IF sa = 0 THEN "0" ELSE IF da = 255 THEN "sa" ELSE "frac"
+      [] kind = "da/sa"    -> IF sa = 0 \/ da >= sa THEN "1" ELSE IF da = 0 THEN "0" ELSE IF sa = 255 THEN "da" ELSE "frac"
+      [] kind = "isa/da"   -> IF da = 0 \/ 255 - sa >= da THEN "1" ELSE IF sa = 255 THEN "0" ELSE IF da = 255 THEN "isa" ELSE "frac"
+      [] kind = "ida/sa"   -> IF sa = 0 \/ 255 - da >= sa THEN "1" ELSE IF da = 255 THEN "0" ELSE IF sa = 255 THEN "ida" ELSE "frac"
+      [] kind = "1-sa/da"  -> IF da = 0 \/ sa >= da THEN "0" ELSE IF sa = 0 THEN "1" ELSE IF da = 255 THEN "isa" ELSE "frac"
+      [] kind = "1-da/sa"  -> IF sa = 0 \/ da >= sa THEN "0" ELSE IF da = 0 THEN "1" ELSE IF sa = 255 THEN "ida" ELSE "frac"
+      [] kind = "1-ida/sa" -> IF sa = 0 \/ 255 - da >= sa THEN "0" ELSE IF da = 255 THEN "1" ELSE IF sa = 255 THEN "da" ELSE "frac"
+      [] kind = "1-isa/da" -> IF da = 0 \/ 255 - sa >= da THEN "0" ELSE IF sa = 255 THEN "1" ELSE IF da = 255 THEN "sa" ELSE "frac"
+
+ReducedChanOK3(ka, kb, sc, sac, dc, da, v) ==
+    /\ ka # "frac" /\ kb # "frac"
+    /\ LET r == MulUn8(sc, Fac8(ka, sac, da)) + MulUn8(dc, Fac8(kb, sac, da)) IN
+       v.n = Truncate(IF r > 255 THEN 255 ELSE r, 8, v.b)
+ReducedChanOK(op, sc, sac, dc, da, v) ==
+    ReducedChanOK3(EquivKind8(PDKinds(op)[1], sac, da), EquivKind8(PDKinds(op)[2], sac, da), sc, sac, dc, da, v)
+ReducedOK(op, mode, s8, m8, d8, fd, rpx) ==
+    \A c \in Chan : CBits(fd, c) > 0 =>
+       ReducedChanOK(op, SrcIn8(s8, m8, mode, c), SrcAlpha8(s8, m8, mode, c), Ch(d8, c), d8.a, rpx[c])
+DivisionFamily(op) == op = OpSATURATE \/ op \in DisjointOps \/ op \in ConjointOps
+AllNarrow(fs, fm, fd, mode) == NarrowFmt(fs) /\ NarrowFmt(fd) /\ (mode = "none" \/ NarrowFmt(fm))
+
 (* the whole judgement for one pixel: spx, mpx, dpx the inputs, rpx the result (channel value records) *)
 PixelOK(op, mode, fs, fm, fd, spx, mpx, dpx, rpx) ==
     IF ExactClass(op, fs, fm, fd, mode)
@@ -273,6 +303,9 @@ PixelOK(op, mode, fs, fm, fd, spx, mpx, dpx, rpx) ==
     ELSE IF NarrowPipeline(op, fs, fm, fd, mode) /\ op \in NarrowBlendOps
          THEN \/ NarrowOK(op, mode, Pixel8(spx), Pixel8(mpx), Pixel8(dpx), fd, rpx)
               \/ WideOK(op, mode, spx, mpx, dpx, fd, rpx)
+         ELSE IF DivisionFamily(op) /\ AllNarrow(fs, fm, fd, mode)
+         THEN \/ WideOK(op, mode, spx, mpx, dpx, fd, rpx)
+              \/ ReducedOK(op, mode, Pixel8(spx), Pixel8(mpx), Pixel8(dpx), fd, rpx)
          ELSE WideOK(op, mode, spx, mpx, dpx, fd, rpx)
 
 Judged(op, mode, fs, fm, fd, spx, dpx) == ExactClass(op, fs, fm, fd, mode) \/ (Premult(spx) /\ Premult(dpx))
